@@ -45,6 +45,8 @@ Streamed forms (section 8): views with `Suspend`s whose futures complete in any 
 | `C05_stream_html`, `C05_stream_hydrates` | proved: what the driver computes is that HTML; parsed and hydrated it adopts every node, creates none |
 | `C05_stream_ready`                     | proved: nothing pending at render time ⇒ `Agree` |
 | `compile_spec`, `compileB_spec` (`compile_inOrd`, `compile_oooWf`, `compile_doc`) | proved (Proofs/HydrateStream): `Agree` ⇒ the program is in C07's class of its mode, resolved document = sync HTML, same final position — `Suspend`s nested to any depth (`compileB`: the value of a pending `Suspend`, continuation style, readiness decided at run time) |
+| `C05_boundary_witness`                 | kernel-evaluated: `<Suspense>` / `<Transition>` boundaries (always pending when rendered asynchronously) under the stream theorems; in-order string after a boundary = F-C05-6 |
+| `C05_error_boundary_position_witness`  | regression witness of F-C05-7 (repaired: `fix: <ErrorBoundary> must hand the position its children leave on …`): `ab` / `x<b></b><!>b` before, `a<!>b` / `x<b></b>b` now |
 | `C05_nested_suspend_witness`           | kernel-evaluated: a `Suspend` inside the value of a `Suspend`, outer-before-inner and inner-before-outer, both stream forms |
 | `C05_suspend_position_witness_in_order`, `…_out_of_order`, `C05_suspend_position_agree` | F-C05-6 (known finding, class `suspend-position`): the position after a *pending* `Suspend` is guessed (in-order: `NextChild`; out-of-order: unchanged); a wrong guess merges two strings into one text node or adds a `<!>` the client does not expect |
 -/
@@ -417,10 +419,11 @@ theorem C05_stream_hydrates (ooo : Bool) (d0 : List Nat) (steps : List (List Nat
   rw [C05_stream_html ooo d0 steps v ha hc hl]
   exact C05_hydrate_parsed (clientOf v) hw
 
-/-- **C05_stream_ready.** No future pending at render time: no guess is made, both streams are the synchronous
-    HTML whatever the view. -/
-theorem C05_stream_ready (ooo : Bool) (d0 : List Nat) (v : View) (h : ∀ f ∈ fidsOf v, d0.contains f = true) :
-    Agree ooo d0 true v .firstChild = true := agree_of_ready ooo d0 v true .firstChild h
+/-- **C05_stream_ready.** No future pending at render time (and no `<Suspense>` boundary, which is always pending
+    when it is rendered asynchronously): no guess is made, both streams are the synchronous HTML whatever the view. -/
+theorem C05_stream_ready (ooo : Bool) (d0 : List Nat) (v : View) (h : ∀ f ∈ fidsOf v, d0.contains f = true)
+    (hb : boundaries v = 0) :
+    Agree ooo d0 true v .firstChild = true := agree_of_ready ooo d0 v true .firstChild h hb
 
 /-! ### F-C05-6: the position after a pending `Suspend` is a guess (class `suspend-position`) -/
 
@@ -471,6 +474,46 @@ theorem C05_nested_suspend_witness :
     (stream true [] [[0], [], [1]] exNested).html = toHtml (clientOf exNested) ∧
     (stream true [] [[1], [], [0]] exNested).html = toHtml (clientOf exNested) ∧
     (stream false [1] [[0]] exNested).html = toHtml (clientOf exNested) := by decide +kernel
+
+/-- `<Suspense>` / `<Transition>` boundaries (children without asynchronous parts; carried as `.any (boundaryTy _) v`):
+    rendered asynchronously they take the two branches of a pending `Suspend` with a future that needs one executor
+    turn, so the stream theorems above cover them; `(<hr>, <Suspense><b>x</b></Suspense>, <i>)` streams to the client's
+    HTML in both forms, while `("a", <Suspense>"b"</Suspense>, "c")` in order is F-C05-6 again (`a<!>bc`). -/
+theorem C05_boundary_witness :
+    let ok : View := .tuple [.elem "hr" [] .unit, .any (boundaryTy 0) (.elem "b" [] (.tuple [.text "x"])), .elem "i" [] .unit]
+    let bad : View := .tuple [.text "a", .any (boundaryTy 0) (.text "b"), .text "c"]
+    Agree false [] true ok .firstChild = true ∧ Agree true [] true ok .firstChild = true ∧
+    (stream false [] [] ok).html = toHtml (clientOf ok) ∧ (stream true [] [] ok).html = toHtml (clientOf ok) ∧
+    toHtml (clientOf ok) = "<hr><b>x</b><i></i>".toList ∧
+    Agree false [] true bad .firstChild = false ∧ (stream false [] [] bad).html = "a<!>bc".toList ∧
+    toHtml (clientOf bad) = "a<!>b<!>c".toList := by decide +kernel
+
+/-! ### F-C05-7 (repaired): `<ErrorBoundary>` did not hand on the position its children leave
+
+The leptos wrapper components are carried by modelled constructors (lean/Driver/C05.lean): `<ErrorBoundary>` with `Ok`
+children, `<Show>` (a closure over an `Either`), `<For>` (a closure over a keyed list) are `AnyView`s that a rebuild
+always replaces, transparent for `to_html` / `hydrate` / `build` — so every theorem of this file applies to them as it
+does to `.any`.  Before the repair `ErrorBoundaryView::to_html_with_buf` rendered its children with a copy of the
+position and dropped the copy (`htmlEbOld`). -/
+
+/-- (i) `(<ErrorBoundary>{Ok("a")}</ErrorBoundary>, "b")` was rendered `ab`: one text node, adopted by both string
+    states, and a rebuild of `"a"` overwrites `"b"`; (ii) `("x", <ErrorBoundary><b/></ErrorBoundary>, "b")` was rendered
+    `x<b></b><!>b`, where hydration fails.  The repaired boundary prints `a<!>b` / `x<b></b>b`, which hydrate. -/
+theorem C05_error_boundary_position_witness :
+    let eb (v : View) : View := .any (.elem "#eb" [] (.arr 0 .unit)) v
+    let v1 : View := .tuple [eb (.any (.opt .unit) (.osome (.text "a"))), .text "b"]
+    let w1 : View := .tuple [eb (.any (.opt .unit) (.osome (.text "A"))), .text "b"]
+    let v2 : View := .tuple [.text "x", eb (.elem "b" [] .unit), .text "b"]
+    htmlEbOld [] (.any (.opt .unit) (.osome (.text "a"))) [.text "b"] = "ab".toList ∧
+    toHtml v1 = "a<!>b".toList ∧
+    (Html.parse "ab".toList).map (fun ts => likeCsr ts v1 w1) = some false ∧
+    likeCsr (domOf v1) v1 w1 = true ∧
+    htmlEbOld [.text "x"] (.elem "b" [] .unit) [.text "b"] = "x<b></b><!>b".toList ∧
+    toHtml v2 = "x<b></b>b".toList ∧
+    (match Html.parse "x<b></b><!>b".toList with
+     | some ts => (hydrateFrom (loadRoot ts).1 (loadRoot ts).2.1 v2).toOption.isNone
+     | none => false) = true ∧
+    likeCsr (domOf v2) v2 v2 = true := by decide +kernel
 
 /-- the other way round both guesses are right: the same two views stream correctly in the other mode -/
 theorem C05_suspend_position_agree :
